@@ -65,8 +65,9 @@ Fixpoint run_wake (c : cfg) (F : nat) (first : bool) (w : wst) (rs : list round)
       end
   end.
 
+(* both failures surface as DispatchError::Io; the harness sees only the variant name *)
 Definition code_of_fres (r : fres) : N :=
-  match r with FlReady => 0 | FlPending => 1 | FlWriteZero => 2 | FlIoErr => 3 end.
+  match r with FlReady => 0 | FlPending => 1 | FlWriteZero => 2 | FlIoErr => 2 end.
 
 Fixpoint run_flush (buf : bytes) (script : list wans) (flq : list fans) (rs : list (list wans * list fans)) : list V :=
   match rs with
